@@ -311,6 +311,32 @@ def plan_C13(ctx):
     trace_stage(ctx, h, ["--record", str(ntr), "--steps", "200", "--cst", "12", "--extract", "1"], "Trace_Schema.tla", "Trace_Ops.cfg", n_traces=ntr)
 
 
+SYNTH_RULE = ("A: every pair of operand schemas built from a 10-entry pool (base sets; terms X1, B(X1), D1 u X1, X2, D1 \\ D2, debool({X1}), "
+              "debool(X1); definition texts with references to D1 / D2 / X1), first operand <= MaxA constituents, second <= MaxB with "
+              "overlapping or disjoint identifiers, x every equation table of <= MaxPairs pairs (base-base, base-term incl. the swapped "
+              "direction, term-term of equal and unequal typification, two keys on one value, values defined through keys), plus tables "
+              "inside one schema (Ops().IsEquatable / Equate).  TLC (Gen_Synth over SchemaOps.tla) predicts defined / refused, the result "
+              "(order, identifiers, aliases, definitions, texts, statuses, typifications) and both translations, and checks SynthContract "
+              "(the statement as a predicate) on its own result as an invariant.  The real BinarySynthes / Equate is executed with the "
+              "identifier hook; the contract is evaluated on the implementation's own result (C09 invariants on the result, translations "
+              "total and into the result, equated pairs share an image, every image's definition / text is the operand's with every "
+              "mention rewritten, full correctness and typifications for correct operands with like-with-like tables, refusal changes "
+              "nothing, operands untouched); the model's exact result is compared at drift level.  non-trivial = >= 3 constituents+pairs. ")
+
+
+def plan_C12(ctx):
+    b = vcore.build()
+    h = hbin(b, "h_synth")
+    ctx.rule = SYNTH_RULE
+    ctx.assumptions = ["operands whose definitions or texts mention a name that resolves nowhere are excluded from the image-of-definition clause (such a name may start to resolve after merging, cf. K4)",
+                       "the texts of an equated pair follow the table's keep/replace option (a swapped pair keeps the removed side's texts) and are compared with the model only",
+                       "admissibility is the implementation's documented rule set as modelled in EqAdmissible; a base set equated with a non-set term is inadmissible (repaired defect D23)"]
+    cfg = "Gen_Synth_%s.cfg" % ("q" if ctx.quick else "t")
+    ctx.constants = {cfg: open(os.path.join(vcore.TLA, cfg)).read().split("SPECIFICATION")[0].split()}
+    ctx.replay("Gen_Synth.tla", cfg, h, [], tag=cfg[:-4], timeout=3400, xss="64m", xmx="16g")
+    ctx.exhaustive = True
+
+
 MODEL_RULE = ("A: every history of <= MaxLen calls of AddBasicElement / SetBasicText (incl. same-size replacements with other keys) / "
               "SetStructureData / ResetDataFor / SetExpressionFor / Erase / Emplace / Calculate / RecalculateAll from a start model "
               "(X1 = {1,2}, D1 := X1, D2 := D1; 'struct' preset adds S1 : B(X1*X1) with data and projections of it; 'late' preset starts with "
@@ -363,11 +389,11 @@ PLANS = {
     "C16": plan_C16,
     "C15": plan_C15,
     "C17": plan_C17,
-    "C04": plan_C04, "C18": plan_C18, "C11": plan_C11, "C13": plan_C13, "C07": plan_C07, "C08": plan_C08, "C09": plan_C09, "C10": plan_C10,
+    "C04": plan_C04, "C18": plan_C18, "C11": plan_C11, "C12": plan_C12, "C13": plan_C13, "C07": plan_C07, "C08": plan_C08, "C09": plan_C09, "C10": plan_C10,
     "C01": plan_C01, "C02": plan_C02, "C03": plan_C03, "C05": plan_C05, "C06": plan_C06,
 }
 
-HARNESS_OF = {"C14": "h_graph", "C20": "h_strings", "C16": "h_sdcompact", "C15": "h_values", "C17": "h_refs", "C04": "h_input", "C18": "h_reuse", "C11": "h_model", "C13": "h_schema", "C07": "h_schema", "C08": "h_schema", "C09": "h_schema", "C10": "h_schema",
+HARNESS_OF = {"C14": "h_graph", "C20": "h_strings", "C16": "h_sdcompact", "C15": "h_values", "C17": "h_refs", "C04": "h_input", "C18": "h_reuse", "C11": "h_model", "C12": "h_synth", "C13": "h_schema", "C07": "h_schema", "C08": "h_schema", "C09": "h_schema", "C10": "h_schema",
               "C01": "h_lang", "C02": "h_lang", "C03": "h_lang", "C05": "h_lang", "C06": "h_lang"}
 TRACE_SPEC_OF = {"C14": ("Trace_C14.tla", "Trace_C14.cfg"), "C20": ("Trace_C20.tla", "Trace_C20.cfg"),
                  "C16": ("Trace_C16.tla", "Trace_C16.cfg"), "C15": ("Trace_C15.tla", "Trace_C15.cfg"),
